@@ -12,9 +12,9 @@ CLAIMS = {
         design_ref="§5 C01", technique="Lean 4 theorem over executable model + differential correspondence + built-in shadow oracle",
         note=COMMON_NOTE + "Backend content compared as parsed data; Redis/MongoDB/Zarr through fakes."),
     "C02": dict(
-        text="Obligation C02_reads_table (decide over the regenerated API table: every read method loads first) and theorem C02_reads_load_first (every read is answered from the merge of the backend's current content); handle attachment across reloads is exercised by correspondence with outside rewrites at random positions and by the shadow oracle's attachment rule. The merge post-condition (content after merge == data) is tied by correspondence, its proof is work in progress.",
+        text="Obligation C02_reads_table (decide over the regenerated API table: every read method loads first) and theorem C02_reads_load_first (every read is answered from the merge of the backend's current content); C02_merge_post: whenever _update(data) returns normally - for EVERY in-memory tree and EVERY data with unique keys, any depth - the merged tree has exactly the content of the data (same structure, identical scalar constructors, same key sets), incl. positions that became null, a scalar or the other container kind (mutual induction over the dict loop and list loop); C02_load_reflects_backend lifts it to objects. Handle attachment across reloads is exercised by correspondence with outside rewrites at random positions and by the shadow oracle's attachment rule.",
         design_ref="§5 C02", technique="Lean 4 theorem + decide over generated table + differential correspondence with outside writers",
-        note=COMMON_NOTE + "Partial: `update_post` (merge result equals the data up to key order) is validated by correspondence, not yet proved."),
+        note=COMMON_NOTE + "Handle attachment (which retained children stay in the tree) is validated by correspondence, not stated as a theorem."),
     "C03": dict(
         text="Theorems C03_{dict,list}_{mutators,reads}_refine_builtin: every plain dict/list method the library forwards to (incl. all slice forms, negative/out-of-range indices, comparisons with TypeError cases) commutes with forgetting child identities, i.e. equals the built-in operation on plain content, for all sizes and arguments; C03_error_leaves_unchanged_*. The built-in semantics functions (SC/Builtin.lean) are themselves diffed against real dict/list through the three-way oracle.",
         design_ref="§5 C03", technique="Lean 4 naturality theorems + three-way differential (real class / model / built-in)",
@@ -28,7 +28,7 @@ CLAIMS = {
         design_ref="§5 C11", technique="Lean 4 mutual-induction theorems + decide over generated validator table + planted-defect differential stream",
         note=COMMON_NOTE + "For the Zarr family the requirement is string keys only (what leaves are storable depends on the codec)."),
     "C12": dict(
-        text="Theorems C12_accept / C12_accept_item (every clean value of any depth is accepted by both classes of every family of the current source) and C12_roundtrip_fromBase (conversion to a synced tree and back is the identity on content incl. scalar constructors); strict-type round trip through a fresh object by oracle on values from a ==-colliding scalar alphabet.",
+        text="Theorems C12_accept / C12_accept_item (every clean value of any depth is accepted by both classes of every family of the current source) and C12_roundtrip_fromBase (conversion to a synced tree and back is the identity on content incl. scalar constructors), C12_roundtrip_merge (the merge-based entry points update/reset and every reload leave exactly the stored value, 1 / True / 1.0 being different leaves); strict-type round trip through a fresh object by oracle on values from a ==-colliding scalar alphabet.",
         design_ref="§5 C12", technique="Lean 4 theorems + strict-type round-trip oracle",
         note=COMMON_NOTE + "The JSON text layer (json.dumps/loads, BSON, numcodecs) is exercised by value, not modelled; ±0.0 are identified."),
     "C17": dict(
@@ -43,9 +43,9 @@ BUF_NOTE = COMMON_NOTE + ("The buffer state machine (both strategies, both conte
 
 CLAIMS.update({
     "C05": dict(
-        text="Theorems C05_buffered_save_defers (a save while buffered changes no file's content or metadata unless the size exceeds the capacity, and then it is exactly the forced flush), C05_exit_writes_buffered_{memory,serialized} (the flush at exit writes the buffered data and drops the entry). Transparency (every result equals the unbuffered result, incl. clear/reset, dict and list, all four classes) is decided by correspondence with the model plus a twin oracle that executes each program on the unbuffered class.",
+        text="Theorems C05_buffered_save_defers (a save while buffered changes no file's content or metadata unless the size exceeds the capacity, and then it is exactly the forced flush), C05_exit_writes_buffered_{memory,serialized} (the flush at exit writes the buffered data and drops the entry), C05_exit_writes_buffered_serialized_content (what the serialized flush writes has exactly the content of the buffered copy, by the merge post-condition). Transparency (every result equals the unbuffered result, incl. clear/reset, dict and list, all four classes) is decided by correspondence with the model plus a twin oracle that executes each program on the unbuffered class.",
         design_ref="§5 C05", technique="Lean 4 theorems on the buffer machine + differential correspondence + unbuffered-twin oracle",
-        note=BUF_NOTE + "Partial: transparency is not a Lean theorem yet (needs the merge post-condition update_post); it is checked by correspondence/twin."),
+        note=BUF_NOTE + "Partial: transparency (every buffered result equals the unbuffered one over whole histories) is not a Lean theorem; it is checked by correspondence/twin."),
     "C06": dict(
         text="Theorems C06_memory_objects_share (after a buffered load the object's data IS the buffered container), C06_serialized_load_merges_entry, C06_memory_flush_writes_buffered and C06_serialized_flush_decides_from_entry: what is written, and whether, is determined by the shared entry for EVERY flushing object, so no pop order or reader/writer assignment can lose a write. Histories with k=2 objects per file entering/leaving together by correspondence and twin oracle.",
         design_ref="§5 C06", technique="Lean 4 theorems on the buffer machine + joint-context differential histories + twin oracle",
@@ -60,7 +60,7 @@ CLAIMS.update({
         note=BUF_NOTE + "Partial: boundedness and zero-outside are checked, not proved."),
 })
 CLAIMS["C17"]["text"] = ("Theorems C17_read_pure / C17_reads_pure: in the model no read operation (any handle, any state, returned or raised) changes any backend or creates a missing one; "
-    "buffered: C07_readonly_silent_* (an entry that was only read is never written by any flush). Tied by correspondence, an oracle that re-reads the resource after every read, and the buffered twin oracle "
+    "buffered: C17_readonly_history_never_writes - from any state whose buffered copies are clean, ANY history of reads, context enters/exits of both kinds in any nesting, capacity changes and new objects (with every flush they trigger) leaves content, metadata and stamp of every file unchanged, both strategies (an invariant proved through every function of the buffer machine) - and C17_buffered_readonly_not_written_*. Tied by correspondence, an oracle that re-reads the resource after every read, and the buffered twin oracle "
     "(bytes, inode and mtime_ns of files on which no mutator was called are unchanged across all contexts).")
 
 CLAIMS["C08"] = dict(
